@@ -9,6 +9,9 @@ import (
 	"context"
 	"encoding/json"
 	"fmt"
+	"os"
+	"path/filepath"
+	"sort"
 	"strings"
 	"syscall"
 	"testing"
@@ -23,7 +26,7 @@ import (
 
 func TestC13Binary(t *testing.T) {
 	rec := vt.For("C13")
-	rec.Rule("binary level: `vipnode pool --store=persist --datadir D` receives over HTTP a generated series of acknowledged requests (light clients connect and send keep-alives, a wallet links nodes with pool_addNode), is ended by SIGKILL or SIGTERM and started again on D, 1-2 times; oracle after each restart: pool_account reports the same linked nodes and balance as before, every request acknowledged before the restart is refused as a replay when sent again verbatim (node-signed and wallet-signed alike), and the next fresh request of each identity is accepted; non-trivial = a wallet-signed request before a restart; distinct by (request series, signals)")
+	rec.Rule("binary level: `vipnode pool --store=persist --datadir D` receives over HTTP a generated series of acknowledged requests (light clients connect and send keep-alives, a wallet links nodes with pool_addNode), is ended by SIGKILL (sometimes leaving the beginning of an unfinished write at the end of the value log) or SIGTERM and started again on D, 1-2 times; oracle after each restart: pool_account reports the same linked nodes and balance as before, every request acknowledged before the restart is refused as a replay when sent again verbatim (node-signed and wallet-signed alike), and the next fresh request of each identity is accepted; non-trivial = a wallet-signed request before a restart; distinct by (request series, signals)")
 	idBase := 0
 	rapid.Check(t, func(rt *rapid.T) {
 		dir := tempDir("c13-bin-")
@@ -104,8 +107,41 @@ func TestC13Binary(t *testing.T) {
 				}
 			}
 			p.stop()
-			hist = append(hist, "pool ended by "+sig+" and started again on the same data directory")
-			p = startPool(rt, "--store=persist", "--datadir="+dir)
+			torn := ""
+			if sig == "SIGKILL" && rapid.IntRange(0, 2).Draw(rt, "tornWrite") == 0 {
+				// the kill came in the middle of a write: the newest value-log file ends in the beginning of an entry
+				// that was never completed (and never acknowledged)
+				vlogs, _ := filepath.Glob(filepath.Join(dir, "*.vlog"))
+				sort.Strings(vlogs)
+				if len(vlogs) > 0 {
+					f := vlogs[len(vlogs)-1]
+					b, _ := os.ReadFile(f)
+					if len(b) > 4 {
+						k := rapid.IntRange(1, min(len(b)-1, 300)).Draw(rt, "tornBytes")
+						tail := append([]byte(nil), b[:k]...)
+						if rapid.Bool().Draw(rt, "tornZeros") {
+							for i := range tail {
+								tail[i] = 0
+							}
+						}
+						fh, err := os.OpenFile(f, os.O_APPEND|os.O_WRONLY, 0)
+						if err == nil {
+							fh.Write(tail)
+							fh.Close()
+							torn = fmt.Sprintf(" (the value log ends in %d bytes of an unfinished write)", k)
+						}
+					}
+				}
+			}
+			hist = append(hist, "pool ended by "+sig+torn+" and started again on the same data directory")
+			np, serr := tryStartPool("127.0.0.1", "--store=persist", "--datadir="+dir)
+			if serr != nil {
+				if strings.Contains(serr.Error(), "start pool:") || !strings.Contains(serr.Error(), "stderr:") {
+					rt.Fatalf("[setup failed] %v", serr)
+				}
+				fail("after %s the pool does not come up again on its data directory: %v", sig+torn, serr)
+			}
+			p = np
 			if after := account(); after != before {
 				fail("after the restart pool_account reports %s, before it %s", after, before)
 			}
